@@ -8,7 +8,7 @@
 //   FAILIO_READ_CHUNKS=a,b,c   sizes of the first reads      FAILIO_READ_REST=<n> (0 = whatever is asked)
 //   FAILIO_READ_FAIL_AT=<offset>  FAILIO_READ_ERRNO=<n> (default EIO)
 //   FAILIO_READ_DELAY_US=<max>    FAILIO_SEED=<n>
-//   FAILIO_WRITE_FD=<n>  FAILIO_WRITE_MAX=<n>  FAILIO_WRITE_FAIL_AT=<offset>  FAILIO_WRITE_ERRNO=<n> (default ENOSPC)
+//   FAILIO_WRITE_FD=<n> | FAILIO_WRITE_PATH=<substring>  FAILIO_WRITE_MAX=<n>  FAILIO_WRITE_FAIL_AT=<offset>  FAILIO_WRITE_ERRNO=<n> (default ENOSPC)
 //   FAILIO_LOG=<path>
 #define _GNU_SOURCE
 #include <dlfcn.h>
@@ -31,7 +31,7 @@ static int (*real_openat64)(int, const char *, int, ...);
 static pthread_mutex_t mu = PTHREAD_MUTEX_INITIALIZER;
 static int inited = 0;
 static int read_fd = -1, write_fd = -1, log_fd = -1;
-static const char *read_path = NULL;
+static const char *read_path = NULL, *write_path = NULL;
 static long chunks[4096];
 static int nchunks = 0, chunk_i = 0;
 static long read_rest = 0, read_fail_at = -1, read_off = 0, read_delay_us = 0;
@@ -72,6 +72,8 @@ static void init(void) {
     write_fd = (int)env_long("FAILIO_WRITE_FD", -1);
     read_path = getenv("FAILIO_READ_PATH");
     if (read_path && !*read_path) read_path = NULL;
+    write_path = getenv("FAILIO_WRITE_PATH");
+    if (write_path && !*write_path) write_path = NULL;
     read_rest = env_long("FAILIO_READ_REST", 0);
     read_fail_at = env_long("FAILIO_READ_FAIL_AT", -1);
     read_errno = (int)env_long("FAILIO_READ_ERRNO", EIO);
@@ -99,6 +101,10 @@ static void maybe_track(const char *path, int fd) {
     if (fd >= 0 && read_path && path && strstr(path, read_path) && read_fd < 0) {
         read_fd = fd;
         logf_("open %d %s\n", fd, path);
+    }
+    if (fd >= 0 && write_path && path && strstr(path, write_path) && write_fd < 0) {
+        write_fd = fd;
+        logf_("openw %d %s\n", fd, path);
     }
 }
 
